@@ -53,6 +53,11 @@ Judge(o) ==
               [] tag.prop = "C06" ->
                    ExtListComplaints(c, EffectiveExts(tag.hasProfile, tag.pexts, tag.cexts))
                    \cup BitsComplaint(c.issuerUID, tag.iuid, "issuerUniqueID") \cup BitsComplaint(c.subjectUID, tag.suid, "subjectUniqueID")
+                   \* the byte-valued manipulation fields: the given octets are the field, byte for byte (all bits counted)
+                   \cup (IF "sigv" \in DOMAIN tag /\ tag.sigv.present /\ ~(c.sig.unused = 0 /\ c.sig.bytes = tag.sigv.bytes)
+                         THEN {"signature value is not the configured raw value"} ELSE {})
+                   \cup (IF "pubv" \in DOMAIN tag /\ tag.pubv.present /\ ~(c.keyBits.unused = 0 /\ c.keyBits.bytes = tag.pubv.bytes)
+                         THEN {"public-key bits are not the configured raw value"} ELSE {})
               [] OTHER -> {"unknown property tag"}
 
 Bad == {k \in DOMAIN T : Judge(T[k]) # {}}
